@@ -287,14 +287,18 @@ class SimProcess:
 def _child_main(sim, proc, blob):
     """runs in the main thread of the new simulated process (spawn bootstrap)"""
     code = 0
+    me = sim.me()
+    me.no_async = True       # the interpreter bootstrap / shutdown code is not a landing place we model
     try:
         try:
             obj = pickle.loads(blob)
             del blob
             sim.ev('child-unpickled', proc.name)
             try:
+                me.no_async = False
                 obj.run()
             finally:
+                me.no_async = True
                 _exit_function(sim, proc)
         except SystemExit as e:
             c = e.code
@@ -304,6 +308,7 @@ def _child_main(sim, proc, blob):
             sim.tlog('child-main-exception', exc=type(e).__name__, msg=str(e)[:200], pid_=proc.pid)
             sim.ev('child-exc', proc.name, type(e).__name__)
     finally:
+        me.no_async = True
         _thread_shutdown(sim, proc)
     sim.exit_proc(proc, code)
 
